@@ -11,12 +11,14 @@ import (
 )
 
 type CaseC02 struct {
-	Type string `json:"type"`
-	Dir  string `json:"dir"` // enc: value -> bytes ; dec: schema-valid wire bytes -> value
-	V    *Value `json:"v"`
+	Type string  `json:"type"`
+	Dir  string  `json:"dir"` // enc: value -> bytes ; dec: schema-valid wire bytes -> value
+	V    *Value  `json:"v"`
+	Pre  []PreOp `json:"pre,omitempty"` // prior calls in the same process
 }
 
 func oracleC02(c *CaseC02) *Failure {
+	defer runPrelude(c.Pre)()
 	if c.Dir == "enc" {
 		r := Render(c.V, nil)
 		if r.MustError {
@@ -233,16 +235,24 @@ func TestC02(t *testing.T) {
 		tn := tn
 		t.Run(tn+"/enc", func(t *testing.T) {
 			CheckProp(t, "C02", "c02", tn+"/enc", func(rt *rapid.T) *CaseC02 {
+				pre, _ := genPrelude(rt, tn, false)
 				v, ft := GenValue(rt, tn, DefaultOpts(Arbitrary))
-				c := &CaseC02{Type: tn, Dir: "enc", V: v}
+				c := &CaseC02{Type: tn, Dir: "enc", V: v, Pre: pre}
+				if len(pre) > 0 {
+					Col.Class("after-prior-calls", 1)
+				}
 				c02Record(c, ft)
 				return c
 			}, oracleC02)
 		})
 		t.Run(tn+"/dec", func(t *testing.T) {
 			CheckProp(t, "C02", "c02", tn+"/dec", func(rt *rapid.T) *CaseC02 {
+				pre, _ := genPrelude(rt, tn, false)
 				v, ft := GenValue(rt, tn, DefaultOpts(Wire))
-				c := &CaseC02{Type: tn, Dir: "dec", V: v}
+				c := &CaseC02{Type: tn, Dir: "dec", V: v, Pre: pre}
+				if len(pre) > 0 {
+					Col.Class("after-prior-calls", 1)
+				}
 				c02Record(c, ft)
 				return c
 			}, oracleC02)
